@@ -20,6 +20,7 @@ from ..analysis import (
 from ..ast.fpyast import *
 from ..ast.visitor import DefaultVisitor
 from ..env import ForeignEnv
+from ..fpc_context import FPCoreContext
 from ..function import Function
 from ..number import REAL, Float
 from ..utils import Gensym
@@ -292,8 +293,10 @@ class _FuncInline(SiteRewriter):
         t = self.gensym.fresh('t')
         _replace_ret(ast.body, t)
         if ast.ctx is not None:
-            # overriding context
-            stmt = ContextStmt(UnderscoreId(), ForeignVal(ast.ctx, None), ast.body, ast.loc)
+            # overriding context (an FPCore description of one is what it
+            # denotes: a `with` block takes a context, not a description)
+            callee_ctx = ast.ctx.to_context() if isinstance(ast.ctx, FPCoreContext) else ast.ctx
+            stmt = ContextStmt(UnderscoreId(), ForeignVal(callee_ctx, None), ast.body, ast.loc)
             ctx.stmts.append(stmt)
         elif ctx.is_ctx_expr:
             # overriding context must be `RealContext` since
